@@ -136,3 +136,6 @@ def gen_ops(rng, tier, ctx=None):
 
 def nontrivial(line):
     return line if line.startswith("mpz_") and len(line) > 24 else None
+
+# source pins: the C the Lean model mirrors (see tools/pins.py)
+PINS = [('mpz/aors.h', None), ('mpz/aors_ui.h', None), ('mpz/ui_sub.c', None), ('mpz/neg.c', None), ('mpz/abs.c', None), ('mpz/mul_2exp.c', None), ('mpz/set.c', None), ('mpz/swap.c', None)]
